@@ -7,6 +7,7 @@ mod mailbox;
 mod ratelim;
 mod registry;
 mod shutdown;
+mod supervision;
 
 pub struct Args(HashMap<String, String>);
 impl Args {
@@ -60,6 +61,7 @@ fn main() {
         "mailbox" => mailbox::run(&args),
         "shutdown" => shutdown::run(&args),
         "registry" => registry::run(&args),
+        "supervision" => supervision::run(&args),
         "typegate" => mailbox::typegate(&args),
         "elect" => cluster::elect(&args),
         "elect_search" => cluster::elect_search(&args),
